@@ -1020,12 +1020,57 @@ func (c *tctx) assignedValue(x *ast.AssignStmt, idx int) (string, string, string
 func (c *tctx) fragment(body *ast.BlockStmt) (string, string, string) {
 	t := c.t
 	switch t.Kind {
-	case "cond", "value", "arg":
+	case "cond", "value", "arg", "field":
 		n := 0
 		var res *found
 		var resAssign *ast.AssignStmt
 		resIdx := 0
 		c.search(body.List, nil, func(s ast.Stmt, dom []ast.Stmt) bool {
+			if t.Kind == "field" {
+				// Pick = "pkg.Type.Field": the value given to that field in the (Nth) composite literal of that type
+				dot := strings.LastIndex(t.Pick, ".")
+				typ, fld := t.Pick[:dot], t.Pick[dot+1:]
+				hit := false
+				ast.Inspect(s, func(nd ast.Node) bool {
+					if hit {
+						return false
+					}
+					switch y := nd.(type) {
+					case *ast.BlockStmt, *ast.FuncLit:
+						if nd != ast.Node(s) {
+							return false
+						}
+					case *ast.CompositeLit:
+						var lits []*ast.CompositeLit
+						if y.Type != nil && norm(c.fset, y.Type) == typ {
+							lits = append(lits, y)
+						} else if y.Type != nil && (norm(c.fset, y.Type) == "[]*"+typ || norm(c.fset, y.Type) == "[]"+typ) {
+							// []*T{{...}}: the element literals carry no type of their own
+							for _, el := range y.Elts {
+								if in, ok := el.(*ast.CompositeLit); ok && in.Type == nil {
+									lits = append(lits, in)
+								}
+							}
+						}
+						for _, y := range lits {
+							for _, el := range y.Elts {
+								if kv, ok := el.(*ast.KeyValueExpr); ok && norm(c.fset, kv.Key) == fld {
+									if n == t.Nth && !hit {
+										res = &found{path: dom, rhs: kv.Value}
+										hit = true
+									}
+									n++
+								}
+							}
+						}
+						if hit {
+							return false
+						}
+					}
+					return true
+				})
+				return hit
+			}
 			if t.Kind == "arg" {
 				hit := false
 				ast.Inspect(s, func(nd ast.Node) bool {
